@@ -188,6 +188,21 @@ CHECKS = {
         "of reach.",
         "5/C15",
     ),
+    "C19": (
+        "exploration",
+        "Hypothesis round-trip testing of the multipart codec (generated part lists, encodings, nesting, boundaries, "
+        "segmentations and read APIs) against a reference splitter and stdlib decoders; FormData -> request.post() round "
+        "trip; mutation fuzzing of valid bodies under a stream-operation budget for termination; exhaustive small grid of "
+        "limit scenarios fed incrementally",
+        "A body written by MultipartWriter/FormData is read back part for part with identical headers, names and content "
+        "under every generated segmentation and read API; writer.size and part Content-Length equal the bytes written; "
+        "mutated bodies always end in parts or an error within the operation budget; header/size limits fire while only "
+        "limit + a few chunks have been fed or allocated.",
+        "Trusts the 20-line reference splitter, stdlib base64/quopri/zlib, and the virtual-loop feeding discipline; "
+        "domain excludes content containing the delimiter, leading '/' or '\\' in names, lines starting with the "
+        "boundary for the line API.",
+        "5/C19",
+    ),
 }
 
 REASON_PENDING = "check not built yet in this round (design in DESIGN.md section 5); not claimed until it runs quietly on the unchanged tree"
